@@ -501,7 +501,7 @@ func c03Child(ctx *runCtx, spec string) {
 		return
 	}
 	defer c.Shutdown()
-	w := &c03World{ctx: ctx, spec: spec, c: c, dmap: "c03", model: map[string]string{}, deleted: map[string]bool{}, rng: rand.New(rand.NewSource(cs.Seed)), valLen: 40}
+	w := &c03World{ctx: ctx, spec: spec, c: c, dmap: []string{"c03", "dmap.c03"}[cs.Seed%2], model: map[string]string{}, deleted: map[string]bool{}, rng: rand.New(rand.NewSource(cs.Seed)), valLen: 40}
 	if cs.TS >= 1<<20 {
 		w.valLen = 10
 	}
@@ -637,7 +637,7 @@ func c03Child(ctx *runCtx, spec string) {
 		return
 	}
 	if !w.failed {
-		ctx.rep.Distinct(fmt.Sprintf("N0=%d|%s|R=%d|ts=%d|crash=%s", cs.N0, cs.Steps, cs.R, cs.TS, cs.Crash))
+		ctx.rep.Distinct(fmt.Sprintf("N0=%d|%s|R=%d|ts=%d|crash=%s|dmap=%s", cs.N0, cs.Steps, cs.R, cs.TS, cs.Crash, w.dmap))
 	}
 	if cs.Seed%3 == 0 {
 		ctx.rep.Sample(map[string]interface{}{"case": spec, "live_keys": len(w.model), "deleted_keys": len(w.deleted)})
